@@ -43,6 +43,7 @@ func main() {
 		noEv     = flag.Bool("noevidence", false, "do not write evidence/replays (used for scratch roots)")
 		vdir     = flag.String("verif", "", "verification directory (default: directory above the binary, else /verif)")
 		listProp = flag.Bool("list", false, "list implemented properties")
+		listFn   = flag.Bool("listfuncs", false, "print the named functions of -root with their signatures (the reference decomposition kept in checker/known_funcs.txt)")
 		allMode  = flag.Bool("all", false, "sweep mode: run the rules of every property on one load of -root (default configuration) and print each undischarged obligation as 'FAILKEY <property> <rule>|<key>'; writes nothing")
 	)
 	flag.Parse()
@@ -85,6 +86,30 @@ func main() {
 		wantKey = r.Obligation.Rule + "|" + r.Obligation.Key
 		*noEv = true
 		*noSelf = true
+	}
+	if *listFn {
+		os.Setenv("SLUGCHECK_NOINLINE", "1")
+		seen := map[string]string{}
+		for _, bc := range append([]BuildConfig{defaultConfig}, thoroughConfigs...) {
+			p, err := loadProg(*root, bc)
+			if err != nil {
+				continue // a configuration that does not type-check is skipped by the checks as well
+			}
+			for _, fn := range p.Funcs {
+				if fn.Parent() == nil {
+					seen[p.FuncName(fn)] = fn.Signature.String()
+				}
+			}
+		}
+		var names []string
+		for n := range seen {
+			names = append(names, n)
+		}
+		sort.Strings(names)
+		for _, n := range names {
+			fmt.Printf("%s\t%s\n", n, seen[n])
+		}
+		return
 	}
 	if *allMode {
 		os.Exit(runAll(*root))
